@@ -162,6 +162,7 @@ structure Inv (s : Sys) : Prop where
   wrFin : ∀ n ∈ s.pub.written, n ∈ s.pub.initial ∨ ∃ snap ∈ s.pub.finished, snap.id = n
   inflFin : ∀ e ∈ s.pub.inflight, ∃ snap ∈ s.pub.finished, snap.id = e.1
   finGood : ∀ snap ∈ s.pub.finished, snap.WF ∧ snap.isComplete = true
+  fifoTrue : s.pub.fifo = true
 
 theorem Inv.wr_le_max {s : Sys} (hi : Inv s) {w : Nat} (hw : w ∈ s.pub.written) : w ≤ maxL s.pub.files := by
   obtain ⟨f, hf, hle⟩ := hi.wrFile w hw
@@ -181,7 +182,7 @@ theorem inv_boot {files written delivered initial : List Nat} {finished : List S
     (h1 : ∀ w ∈ written, ∃ f ∈ files, w ≤ f) (h2 : ∀ f ∈ files, f ∈ written)
     (h3 : fifo = true → delivered.Pairwise (· < ·)) (h4 : ∀ k ∈ delivered, k ∈ written)
     (h5 : ∀ n ∈ written, n ∈ initial ∨ ∃ snap ∈ finished, snap.id = n)
-    (h6 : ∀ snap ∈ finished, snap.WF ∧ snap.isComplete = true) :
+    (h6 : ∀ snap ∈ finished, snap.WF ∧ snap.isComplete = true) (h7 : fifo = true) :
     Inv (boot files written delivered initial finished fifo) := by
   have hmax : ∀ w ∈ written, w ≤ maxL files := by
     intro w hw; obtain ⟨f, hf', hle⟩ := h1 w hw; exact Nat.le_trans hle (le_maxL hf')
@@ -213,7 +214,8 @@ theorem inv_boot {files written delivered initial : List Nat} {finished : List S
       notifWr := by simp [boot]
       wrFin := by simp [boot]
       inflFin := by simp [boot]
-      finGood := by simpa [boot] using h6 }
+      finGood := by simpa [boot] using h6
+      fifoTrue := by simpa [boot] using h7 }
   · have hl := load_of_ne hf
     exact {
       store := ⟨[], by intro p hp; simp [boot] at hp⟩
@@ -234,10 +236,11 @@ theorem inv_boot {files written delivered initial : List Nat} {finished : List S
       notifWr := by simpa [boot] using h4
       wrFin := by simpa [boot] using h5
       inflFin := by simp [boot]
-      finGood := by simpa [boot] using h6 }
+      finGood := by simpa [boot] using h6
+      fifoTrue := by simpa [boot] using h7 }
 
 theorem inv_init (files0 : List Nat) : Inv (init files0) :=
-  inv_boot (fun w hw => ⟨w, hw, Nat.le_refl _⟩) (fun _ h => h) (by simp) (by simp) (fun n hn => Or.inl hn) (by simp)
+  inv_boot (fun w hw => ⟨w, hw, Nat.le_refl _⟩) (fun _ h => h) (by simp) (by simp) (fun n hn => Or.inl hn) (by simp) rfl
 
 /-! ### preservation -/
 
@@ -267,7 +270,8 @@ theorem inv_call {s : Sys} (hi : Inv s) (c : Store.Call) {s' : Sys} {obs : List 
       notifWr := hi.notifWr
       wrFin := hi.wrFin
       inflFin := hi.inflFin
-      finGood := hi.finGood }
+      finGood := hi.finGood
+      fifoTrue := hi.fifoTrue }
   | some snap =>
     rw [hf] at h
     simp only [Option.some.injEq, Prod.mk.injEq] at h
@@ -314,7 +318,8 @@ theorem inv_call {s : Sys} (hi : Inv s) (c : Store.Call) {s' : Sys} {obs : List 
         simp only [List.mem_append, List.mem_singleton] at hs
         rcases hs with hs | hs
         · exact hi.finGood sn hs
-        · subst hs; exact ⟨hgood.wf, hgood.complete⟩ }
+        · subst hs; exact ⟨hgood.wf, hgood.complete⟩
+      fifoTrue := hi.fifoTrue }
 
 theorem inv_write {s : Sys} (hi : Inv s) (n : Nat) {s' : Sys} {obs : List Obs}
     (h : step s (.write n) = some (s', obs)) : Inv s' := by
@@ -389,7 +394,8 @@ theorem inv_write {s : Sys} (hi : Inv s) (n : Nat) {s' : Sys} {obs : List Obs}
         by_cases hen : e0 = (n, false)
         · rw [if_pos hen] at heq; subst heq; subst hen; exact hi.inflFin (n, false) he0
         · rw [if_neg hen] at heq; subst heq; exact hi.inflFin _ he0
-      finGood := hi.finGood }
+      finGood := hi.finGood
+      fifoTrue := hi.fifoTrue }
   · rw [if_neg hin] at h; exact absurd h (by simp)
 
 theorem inv_lock {s : Sys} (hi : Inv s) (n : Nat) {s' : Sys} {obs : List Obs}
@@ -536,7 +542,8 @@ theorem inv_lock {s : Sys} (hi : Inv s) (n : Nat) {s' : Sys} {obs : List Obs}
         · exact hi.notifWr k hk
       wrFin := hi.wrFin
       inflFin := fun e he => hi.inflFin e (List.mem_filter.mp he).1
-      finGood := hi.finGood }
+      finGood := hi.finGood
+      fifoTrue := hi.fifoTrue }
   · rw [if_neg hin] at h; exact absurd h (by simp)
 
 theorem inv_remove {s : Sys} (hi : Inv s) (ids : List Nat) {s' : Sys} {obs : List Obs}
@@ -583,7 +590,8 @@ theorem inv_remove {s : Sys} (hi : Inv s) (ids : List Nat) {s' : Sys} {obs : Lis
       notifWr := hi.notifWr
       wrFin := hi.wrFin
       inflFin := hi.inflFin
-      finGood := hi.finGood }
+      finGood := hi.finGood
+      fifoTrue := hi.fifoTrue }
   · rw [if_neg hin] at h; exact absurd h (by simp)
 
 theorem mem_eraseIdx_flatten {l : List (List Nat)} {k x : Nat} (h : x ∈ (l.eraseIdx k).flatten) : x ∈ l.flatten := by
@@ -599,9 +607,9 @@ theorem flatten_eraseIdx_sublist (l : List (List Nat)) (k : Nat) : (l.eraseIdx k
     | zero => simp only [List.eraseIdx_cons_zero, List.flatten_cons]; exact List.sublist_append_right _ _
     | succ k => simp only [List.eraseIdx_cons_succ, List.flatten_cons]; exact List.Sublist.append (List.Sublist.refl _) (ih k)
 
-theorem inv_deliver {s : Sys} (hi : Inv s) (k : Nat) {s' : Sys} {obs : List Obs}
-    (h : step s (.deliver k) = some (s', obs)) : Inv s' := by
-  simp only [step] at h
+theorem inv_deliverAt {s : Sys} (hi : Inv s) (k : Nat) (hk : k = 0) {s' : Sys} {obs : List Obs}
+    (h : deliverAt s k = some (s', obs)) : Inv s' := by
+  simp only [deliverAt] at h
   cases hn : s.pub.notifs[k]? with
   | none => rw [hn] at h; exact absurd h (by simp)
   | some ids =>
@@ -631,24 +639,26 @@ theorem inv_deliver {s : Sys} (hi : Inv s) (k : Nat) {s' : Sys} {obs : List Obs}
         simp only
         exact List.Pairwise.sublist (flatten_eraseIdx_sublist _ _) hi.queueSorted
       notifSorted := by
-        intro hf
-        simp only [Bool.and_eq_true, beq_iff_eq] at hf
-        obtain ⟨hf1, hk0⟩ := hf
-        subst hk0
+        intro _
+        subst hk
         cases hq : s.pub.notifs with
         | nil => rw [hq] at hn; simp at hn
         | cons a rest =>
           rw [hq] at hn
           simp only [List.getElem?_cons_zero, Option.some.injEq] at hn
           subst hn
-          have := hi.notifSorted hf1
+          have := hi.notifSorted hi.fifoTrue
           rw [hq, List.flatten_cons, ← List.append_assoc] at this
           simpa [List.eraseIdx] using this
       notifLe := fun x hx => hi.notifLe x (hsub x hx)
       notifWr := fun x hx => hi.notifWr x (hsub x hx)
       wrFin := hi.wrFin
       inflFin := hi.inflFin
-      finGood := hi.finGood }
+      finGood := hi.finGood
+      fifoTrue := by subst hk; simp [hi.fifoTrue] }
+
+theorem inv_deliver {s : Sys} (hi : Inv s) {s' : Sys} {obs : List Obs}
+    (h : step s .deliver = some (s', obs)) : Inv s' := inv_deliverAt hi 0 rfl h
 
 theorem inv_crash {s : Sys} (hi : Inv s) {s' : Sys} {obs : List Obs}
     (h : step s .crash = some (s', obs)) : Inv s' := by
@@ -659,6 +669,7 @@ theorem inv_crash {s : Sys} (hi : Inv s) {s' : Sys} {obs : List Obs}
   · intro k hk; exact hi.notifWr k (List.mem_append_left _ hk)
   · exact hi.wrFin
   · exact hi.finGood
+  · exact hi.fifoTrue
 
 theorem step_inv {s : Sys} (hi : Inv s) (a : Act) {s' : Sys} {obs : List Obs}
     (h : step s a = some (s', obs)) : Inv s' := by
@@ -667,7 +678,7 @@ theorem step_inv {s : Sys} (hi : Inv s) (a : Act) {s' : Sys} {obs : List Obs}
   | write n => exact inv_write hi n h
   | lock n => exact inv_lock hi n h
   | remove ids => exact inv_remove hi ids h
-  | deliver k => exact inv_deliver hi k h
+  | deliver => exact inv_deliver hi h
   | crash => exact inv_crash hi h
 
 theorem run_inv (as : List Act) : ∀ {s s' : Sys} {obs : List Obs}, Inv s → run s as = some (s', obs) → Inv s' := by
@@ -715,8 +726,8 @@ theorem step_initial {s s' : Sys} {a : Act} {obs : List Obs} (h : step s a = som
     split at h
     · simp only [Option.some.injEq, Prod.mk.injEq] at h; rw [← h.1]
     · exact absurd h (by simp)
-  | deliver k =>
-    simp only [step] at h
+  | deliver =>
+    simp only [step, deliverAt] at h
     split at h
     · exact absurd h (by simp)
     · simp only [Option.some.injEq, Prod.mk.injEq] at h; rw [← h.1]
